@@ -381,18 +381,20 @@ def ensure_lockfile():
         shutil.copy(src, dst)
 
 
-def build_harness(member, timeout=3600):
-    """cargo build -p <member> in /verif/harness (path deps on /repo => always the current tree)."""
-    if member in _built:
+def build_harness(member, bin=None, timeout=3600):
+    """cargo build -p <member> [--bin <bin>] in /verif/harness (path deps on /repo => always the current tree)."""
+    key = (member, bin)
+    if key in _built or (member, None) in _built:
         return
     ensure_lockfile()
     t0 = time.time()
-    p = subprocess.run(["cargo", "build", "--offline", "-p", member], cwd=HARNESS, env=cargo_env(),
+    cmd = ["cargo", "build", "--offline", "-p", member] + (["--bin", bin] if bin else [])
+    p = subprocess.run(cmd, cwd=HARNESS, env=cargo_env(),
                        stdout=subprocess.PIPE, stderr=subprocess.STDOUT, text=True, timeout=timeout)
     if p.returncode != 0:
         raise ToolError("cargo build -p %s failed:\n%s" % (member, "\n".join(p.stdout.splitlines()[-60:])))
-    log("[build] %s ok in %.1fs" % (member, time.time() - t0))
-    _built.add(member)
+    log("[build] %s %s ok in %.1fs" % (member, bin or "", time.time() - t0))
+    _built.add(key)
 
 
 def harness_bin(component):
@@ -401,7 +403,7 @@ def harness_bin(component):
 
 def run_harness(member, args, stdin_path=None, stdout_path=None, timeout=3600, env=None):
     """args[0] is the component = the binary name (harness/<member>/src/bin/<component>.rs)."""
-    build_harness(member)
+    build_harness(member, args[0])
     e = dict(os.environ)
     e.setdefault("RUST_BACKTRACE", "0")
     if env:
